@@ -29,7 +29,7 @@ type caseC16 struct {
 }
 
 var c16Bases = []string{
-	world.Uusdc, world.Ufoo, world.Gamm, world.Tricky, world.IBCVoucher, world.Uhuge,
+	world.Uusdc, world.Ufoo, world.Gamm, world.Tricky, world.IBCVoucher, world.Uhuge, world.OddDenom, world.LongDenom,
 	"", "a//b", "uatom", "ibc/0000", "UUSDC", "uusdc/", "transfer/channel-3/uusdc",
 }
 
